@@ -6,6 +6,7 @@ import (
 	"go/token"
 	"go/types"
 	"os"
+	"sort"
 	"strings"
 
 	"golang.org/x/tools/go/ssa"
@@ -1259,11 +1260,76 @@ func withNewHelpers(fs []*ssa.Function) []*ssa.Function {
 					add(g, d+1)
 				}
 			}
+			// a function picked from a package-level table (`builders[kind](r)`): every new function stored in it
+			for _, cal := range tableCallees(ci) {
+				if isNewHelper(cal) {
+					for _, g := range withAnon(cal) {
+						add(g, d+1)
+					}
+				}
+			}
 		}
 	}
 	for _, f := range fs {
 		add(f, 0)
 	}
+	return out
+}
+
+// tableCallees: for a dynamic call whose function value is read from a package-level map, array or slice of the
+// module (directly or from a field of its elements), the functions stored in that table by the package initialiser.
+func tableCallees(ci ssa.CallInstruction) []*ssa.Function {
+	cc := ci.Common()
+	if cc.IsInvoke() || cc.StaticCallee() != nil {
+		return nil
+	}
+	v := resolve(cc.Value)
+	var glob *ssa.Global
+	path := ""
+	for i := 0; i < 6 && glob == nil; i++ {
+		switch x := v.(type) {
+		case *ssa.Extract:
+			v = x.Tuple
+		case *ssa.Lookup:
+			v = x.X
+		case *ssa.Index:
+			v = x.X
+		case *ssa.Field:
+			path = fieldName(x.X.Type(), x.Field)
+			v = x.X
+		case *ssa.UnOp:
+			if x.Op != token.MUL {
+				return nil
+			}
+			if g, ok := x.X.(*ssa.Global); ok {
+				glob = g
+			} else if g, _, p := tableIndexedBy(x); g != nil {
+				glob, path = g, p
+			} else {
+				return nil
+			}
+		default:
+			return nil
+		}
+	}
+	if glob == nil || glob.Pkg == nil || !inModule(glob.Pkg.Pkg.Path()) {
+		return nil
+	}
+	elems, _ := globalTable(glob)
+	var out []*ssa.Function
+	seen := map[*ssa.Function]bool{}
+	for _, e := range elems {
+		for p, val := range e {
+			if p != path && path != "" {
+				continue
+			}
+			if fn := funcOfValue(val); fn != nil && !seen[fn] {
+				seen[fn] = true
+				out = append(out, fn)
+			}
+		}
+	}
+	sort.Slice(out, func(i, j int) bool { return fnKey(out[i]) < fnKey(out[j]) })
 	return out
 }
 
@@ -1859,4 +1925,153 @@ func returnPart(r *ssa.Return, idx int) ssa.Value {
 		}
 	}
 	return nil
+}
+
+// globalTable reads a package-level table (an array, a slice or a map with constant integer keys, of structs or of
+// plain values) from the stores of its package initialiser: element key -> field path ("" for a plain element) ->
+// stored value. ok is false when an element is written under a key that is not a constant.
+func globalTable(glob *ssa.Global) (elems map[int64]map[string]ssa.Value, ok bool) {
+	elems = map[int64]map[string]ssa.Value{}
+	if glob == nil || glob.Pkg == nil {
+		return elems, false
+	}
+	pini := glob.Pkg.Func("init")
+	if pini == nil {
+		return elems, false
+	}
+	roots := map[ssa.Value]bool{glob: true}
+	eachInstr(pini, func(ins ssa.Instruction) {
+		if st, k := ins.(*ssa.Store); k && st.Addr == ssa.Value(glob) {
+			switch x := st.Val.(type) {
+			case *ssa.Slice:
+				roots[x.X] = true
+			case *ssa.MakeMap:
+				roots[x] = true
+			}
+		}
+	})
+	ok = true
+	put := func(j int64, path string, v ssa.Value) {
+		if elems[j] == nil {
+			elems[j] = map[string]ssa.Value{}
+		}
+		elems[j][path] = v
+	}
+	eachInstr(pini, func(ins ssa.Instruction) {
+		switch x := ins.(type) {
+		case *ssa.Store:
+			root, path := fieldPathOf(x.Addr)
+			ia, k := root.(*ssa.IndexAddr)
+			if !k || !roots[ia.X] {
+				return
+			}
+			j, k := constInt(ia.Index)
+			if !k {
+				ok = false
+				return
+			}
+			put(j, path, x.Val)
+		case *ssa.MapUpdate:
+			if !roots[x.Map] {
+				return
+			}
+			j, k := constInt(x.Key)
+			if !k {
+				ok = false
+				return
+			}
+			put(j, "", x.Value)
+		}
+	})
+	return elems, ok
+}
+
+// funcOfValue: the function a function-typed value denotes (a function, a closure without captured state that
+// matters here, or a conversion of one); nil when it is not statically one function.
+func funcOfValue(v ssa.Value) *ssa.Function {
+	for {
+		switch x := v.(type) {
+		case *ssa.Function:
+			return x
+		case *ssa.MakeClosure:
+			f, _ := x.Fn.(*ssa.Function)
+			return f
+		case *ssa.ChangeType:
+			v = x.X
+		default:
+			return nil
+		}
+	}
+}
+
+// tableIndexedBy: v is a value read from (or an address into) element table[idx] of a package-level table; returns the
+// table, the index value and the field path read.
+func tableIndexedBy(v ssa.Value) (glob *ssa.Global, idx ssa.Value, path string) {
+	globOf := func(t ssa.Value) *ssa.Global {
+		switch x := t.(type) {
+		case *ssa.Global:
+			return x
+		case *ssa.UnOp:
+			if g, ok := x.X.(*ssa.Global); ok && x.Op == token.MUL {
+				return g
+			}
+		}
+		return nil
+	}
+	join := func(a, b string) string {
+		switch {
+		case a == "":
+			return b
+		case b == "":
+			return a
+		}
+		return a + "." + b
+	}
+	for i := 0; i < 6; i++ {
+		v = stripConv(v)
+		switch x := v.(type) {
+		case *ssa.Field: // a field of an element that was loaded as a whole
+			path = join(fieldName(x.X.Type(), x.Field), path)
+			v = x.X
+			continue
+		case *ssa.Index: // an element of the table loaded as a whole array
+			if g := globOf(x.X); g != nil {
+				return g, x.Index, path
+			}
+			return nil, nil, ""
+		case *ssa.UnOp:
+			if x.Op != token.MUL {
+				return nil, nil, ""
+			}
+			root, p := fieldPathOf(x.X)
+			path = join(p, path)
+			switch r := root.(type) {
+			case *ssa.IndexAddr:
+				if g := globOf(r.X); g != nil {
+					return g, r.Index, path
+				}
+				return nil, nil, ""
+			case *ssa.Alloc: // a local copy of the element (`col := table[i]`)
+				sv := allocSingleStore(r)
+				if sv == nil {
+					return nil, nil, ""
+				}
+				v = sv
+				continue
+			}
+			return nil, nil, ""
+		case *ssa.IndexAddr, *ssa.FieldAddr:
+			root, p := fieldPathOf(x)
+			path = join(p, path)
+			if r, ok := root.(*ssa.IndexAddr); ok {
+				if g := globOf(r.X); g != nil {
+					return g, r.Index, path
+				}
+			}
+			return nil, nil, ""
+		default:
+			return nil, nil, ""
+		}
+	}
+	return nil, nil, ""
 }
